@@ -12,6 +12,10 @@ def main():
         patch = os.path.join(ROOT, "seeded", d, "patch.diff")
         if not os.path.exists(patch):
             continue
+        # a later fix: commit may have touched the same lines; the same change rebased is kept beside the original
+        reb = sorted(f for f in os.listdir(os.path.join(ROOT, "seeded", d)) if f.startswith("patch.rebased"))
+        if reb:
+            patch = os.path.join(ROOT, "seeded", d, reb[-1])
         for attempt in range(30):
             st = subprocess.run(["git", "-C", "/repo", "status", "--porcelain"], capture_output=True, text=True).stdout
             if not st.strip():
